@@ -65,3 +65,38 @@ def version_string_impl(argv, ctime):
         return cli.Cli().version_string
     finally:
         sys.argv, cli.datetime = old_argv, old_dt
+
+
+_SEQ_DRIVER = r'''
+import json, sys
+from json_to_models.cli import Cli
+argvs = json.load(sys.stdin)
+def strip(text):
+    lines = text.split("\n")
+    return "\n".join(lines[4:]) if len(lines) >= 4 and lines[0] == 'r"""' else text
+def run(cli, argv):
+    try:
+        cli.parse_args(argv)
+        return {"ok": strip(cli.run())}
+    except SystemExit as e:
+        return {"err": "SystemExit"}
+    except Exception as e:
+        return {"err": type(e).__name__}
+one = Cli()
+reused = [run(one, a) for a in argvs]
+fresh = [run(Cli(), a) for a in argvs]
+json.dump({"reused": reused, "fresh_last": fresh[-1], "fresh_all": fresh}, sys.stdout)
+'''
+
+
+def run_cli_sequence(argvs, cwd, repo=None, timeout=120):
+    """ONE `Cli` object handling several command lines one after the other in one process (parse_args + run each), and a
+    fresh `Cli` object for each command line in the same process; code after the header"""
+    env = dict(os.environ)
+    env["PYTHONPATH"] = repo or os.environ.get("J2M_REPO", "/repo")
+    env["PYTHONIOENCODING"] = "utf-8"
+    p = subprocess.run([sys.executable, "-c", _SEQ_DRIVER], input=json.dumps(argvs).encode("utf-8"), cwd=cwd, env=env,
+                       stdout=subprocess.PIPE, stderr=subprocess.PIPE, timeout=timeout)
+    if p.returncode != 0:
+        raise RuntimeError("sequence driver failed: " + p.stderr.decode("utf-8", "replace")[-800:])
+    return json.loads(p.stdout.decode("utf-8"))
